@@ -46,6 +46,7 @@ type Val struct {
 	Elems []Val
 	Fn    *Closure
 	Lin   *Lin
+	DynT  types.Type // known dynamic type of an interface value
 }
 
 type Closure struct {
@@ -1050,6 +1051,51 @@ func (in *Interp) typeSwitch(s *ast.TypeSwitchStmt, st *State, fr *frame, c ctl,
 				if h.TypeSwitch(in, s, v, st, fr, c, next) {
 					return
 				}
+			}
+			if v.DynT != nil {
+				// the dynamic type is known: take the first matching clause
+				var chosen *ast.CaseClause
+				var deflt *ast.CaseClause
+				for _, cl := range s.Body.List {
+					cc := cl.(*ast.CaseClause)
+					if cc.List == nil {
+						deflt = cc
+						continue
+					}
+					for _, te := range cc.List {
+						t := fr.info.TypeOf(te)
+						if t == nil {
+							continue
+						}
+						if types.Identical(t, v.DynT) {
+							chosen = cc
+						} else if it, ok := t.Underlying().(*types.Interface); ok && types.Implements(v.DynT, it) {
+							chosen = cc
+						}
+						if chosen != nil {
+							break
+						}
+					}
+					if chosen != nil {
+						break
+					}
+				}
+				if chosen == nil {
+					chosen = deflt
+				}
+				if chosen == nil {
+					next(st)
+					return
+				}
+				if bind != nil {
+					if obj := fr.info.Implicits[chosen]; obj != nil {
+						st.env[obj] = v
+					}
+				}
+				bc := c
+				bc.brk = next
+				in.block(chosen.Body, st, fr, bc, next)
+				return
 			}
 			for _, cl := range s.Body.List {
 				cc := cl.(*ast.CaseClause)
